@@ -116,13 +116,13 @@ SlotsOf(rec) == {rec.main, rec.lc, rec.lp} \cup {rec.waits[p] : p \in DOMAIN rec
 DropsOf(rec) == {[c |-> s.c, cst |-> s.st] : s \in {x \in SlotsOf(rec) : x.st \in {"issued", "running", "executed"}}}
 
 \* maximum route delay, htlc_manager.rs 575-583 (saturating; u16 clamp irrelevant at model sizes)
-MaxDelay(e) == Min(Max(0, Max(0, e.minexp - height) - cfg.sdelta), cfg.pdelta)
+MaxDelay(e) == Lo(Hi(0, Hi(0, e.minexp - height) - cfg.sdelta), cfg.pdelta)
 
 \* select! branch "ready" (548-614): read the table, start add_payment_attempt
 LcReady(h, e, o, ts, na) ==
   LET c == CW1(h, na)
       o1 == [o EXCEPT !.pc = "addW1", !.a = na, !.t = now,
-                      !.maxfee = Max(0, e.recv - o.A), !.maxdelay = MaxDelay(e),
+                      !.maxfee = Hi(0, e.recv - o.A), !.maxdelay = MaxDelay(e),
                       !.main = Issued(c)]
   IN Res([e EXCEPT !.readyQ = 0], o1, ts, NoResp, {c}, {}, 0, na + 1)
 
@@ -215,7 +215,7 @@ OwnerDeliver(h, slot, p) ==
          ELSE {Done(ts, FailNode, na)}                                       \* 468-479
     [] o.pc = "rmarkF2" /\ slot = "main" ->
          IF o.main.res.r = "ok"
-         THEN EnterSelect(h, e, o, ts, Max(0, cfg.mpp - Max(0, now - o.t)), na)   \* 488-494
+         THEN EnterSelect(h, e, o, ts, Hi(0, cfg.mpp - Hi(0, now - o.t)), na)   \* 488-494
          ELSE {Done(ts, FailNode, na)}
     [] o.pc = "addW1" /\ slot = "main" ->
          IF o.main.res.r = "ok"
@@ -304,7 +304,7 @@ Arrive(i) ==
                          THEN [e0 EXCEPT !.ready = FALSE, !.failreq = TRUE, !.failQ = why] ELSE e0
                    recv == e1.recv + rec.amt
                    mk == ~e1.ready /\ ~e1.failreq /\ FeeOK(recv, e1.A)      \* add_htlc 733-761
-                   e2 == [e1 EXCEPT !.recv = recv, !.minexp = Min(@, rec.exp),
+                   e2 == [e1 EXCEPT !.recv = recv, !.minexp = Lo(@, rec.exp),
                                     !.ready = IF mk THEN TRUE ELSE @, !.readyQ = IF mk THEN 1 ELSE @]
                    r == IF o0.pc = "select" /\ e2.failQ.r # "none" THEN Done(tails[h], e2.failQ, nextAtt)
                         ELSE IF o0.pc = "select" /\ e2.readyQ = 1 THEN LcReady(h, e2, o0, tails[h], nextAtt)
